@@ -111,7 +111,11 @@ def compiled_fn(sp, e, IDX, what="value"):
             x.envlink = (IDX, sym.fresh("ENV_x", sym.EnvSort), ip2.path)
         ENV = x.envlink[1]
         sp2 = Spec(ip2)
-        return SReal(sp2.den(e, ENV, sp2.PV), "npfloat")
+        # what the compiler contracts prove: the value is the denotation at every point of the expression's domain (outside
+        # it NumPy produces inf/nan, which real arithmetic does not model: A1)
+        out = sym.fresh("compiled_out", sym.R)
+        ip2.path.assume(z3.Implies(sp2.dom(e, ENV, sp2.PV), out == sp2.den(e, ENV, sp2.PV)))
+        return SReal(out, "npfloat")
     return SpecFn(call, desc=f"compiled {what}", meta={"compiled_of": e})
 
 
@@ -279,6 +283,20 @@ def install(reg, src):
         ip.path.assume(z3.Or(covers(sp, e, DS), z3.And(sp.occ(e, wn), z3.Not(z3.Select(DS, wn)))))
     reg.covers_from_occ = covers_from_occ
 
+    def covers_to_occ(sp, e, DS):
+        """Converse bridge (same structural induction, lean: covers_iff_occ): COVERS(e, DS) and name occurs in e  =>  name in DS;
+        registered for every name the path reasons about."""
+        from .problem_c import forall_name
+        ip = sp.ip
+        r = sp.ref(e)
+        key = f"occcov:{r}:{DS}"
+        if key in ip.path.unfolded:
+            return
+        ip.path.unfolded.add(key)
+        cv = covers(sp, e, DS)
+        forall_name(ip, lambda nm: z3.Implies(z3.And(cv, sp.occ(e, nm)), z3.Select(DS, nm)))
+    reg.covers_to_occ = covers_to_occ
+
     eval_contract(f"{M}:_build_evaluator", 1)
     eval_contract(f"{M}:_build_evaluator_iterative", 1,
                   bounded="positional result stack of a two-phase DFS; node blocks build the same closures as the recursive twin "
@@ -442,6 +460,8 @@ def install_top(reg, src):
         NS = names_of_varlist(c.ip, vs)
         c.decreases(e)
         c.requires(sp.wf(e), name="well-formed scalar expression")
+        if not c.verifying:
+            reg.covers_from_occ(sp, e, NS)   # lemma instance: lets a caller establish coverage from "no new variables" facts
         c.requires(reg.covers(sp, e, NS), name="every variable of the expression is in the variable list")
         m = index_map_of_varlist(c.ip, vs)
         IDX = m.idx
